@@ -10,7 +10,7 @@ Not decided: equality with exact rational arithmetic, one-unit tightness, "as fa
 the budget allows", correctness of the 256-bit division. Pure numerics."""
 from analysis import cfg, atoms as A, preach
 from analysis.ir import callee_path, op_const, op_place, AnchorMissing
-from analysis.prov import prov_of, show, strip, leaves, subterms
+from analysis.prov import prov_of, prov_assuming, show, strip, leaves, subterms
 from analysis.match import is_param, is_call, const_val, const_name, sh, mentions, call_args, fail_conditions
 
 SM = "math::swap_math::"
@@ -386,4 +386,169 @@ def R4_fee_and_amounts(run):
                       loc=fn.loc(t["l"]), found=str([sh(a, 40) for a in args]), detail="(sqrt_price_current, _, liquidity, exact_in, a_to_b)")
 
 
-RULES = [R1_step_polarity, R2_rounding_primitives, R3_next_price, R4_fee_and_amounts]
+
+def _incremented_terms(fn):
+    """Terms x of every `x + 1` / `x.add(1)` site: [(block, term)]."""
+    pv = prov_of(fn)
+    out = []
+    for bi, bb in enumerate(fn.blocks):
+        if bb["c"]:
+            continue
+        for si, st in enumerate(bb["s"]):
+            if st["k"] == "=" and st["rv"].get("bin") in ("Add", "AddWithOverflow", "AddUnchecked"):
+                ka, kb = op_const(st["rv"]["a"]), op_const(st["rv"]["b"])
+                if kb is not None and kb.get("v") == "1":
+                    out.append((bi, strip(pv.operand(st["rv"]["a"], bi, si))))
+                elif ka is not None and ka.get("v") == "1":
+                    out.append((bi, strip(pv.operand(st["rv"]["b"], bi, si))))
+        t = bb["t"]
+        if t["k"] == "call" and (callee_path(t) or "").endswith("U256Muldiv::add"):
+            arg = strip(pv.operand(t["a"][1], bi, len(bb["s"])))
+            if arg[0] == "call" and arg[1].endswith("U256Muldiv::new") and [const_val(x) for x in arg[2]] == [0, 1]:
+                out.append((bi, strip(pv.operand(t["a"][0], bi, len(bb["s"])))))
+    return out
+
+
+def _uncast(t):
+    t = strip(t)
+    while t[0] == "cast":
+        t = strip(t[1])
+    return t
+
+
+def check_remainder_exact(run, rule, fn):
+    """The test guarding the `+ 1` is the exact remainder of the very division / shift that produced the incremented value."""
+    incs = _incremented_terms(fn)
+    inst = "remainder-exact@" + fn.path
+    if not incs:
+        run.missing(rule, inst, "no increment site in " + fn.path, loc=fn.loc())
+        return
+    ats = A.atoms(fn)
+    problems = []
+    for bi, q in incs:
+        q = _uncast(q)
+        # the guarding atoms: those (other than a bare bool parameter) on whose one side only the increment is reachable
+        guards = []
+        for at in ats:
+            if strip(at.term)[0] == "param":
+                continue
+            rt = cfg.reach(fn, at.true_targets[0], cut_blocks=[at.block])
+            rf = cfg.reach(fn, at.false_targets[0], cut_blocks=[at.block])
+            if (bi in rt) != (bi in rf):
+                guards.append((at, bi in rt))
+        # keep the guards that talk about a remainder
+        ok = False
+        for at, side in guards:
+            for term in [x for x in leaves(at.term)] + [at.term]:
+                c = None
+                tt = strip(term)
+                if tt[0] == "bin" and tt[1] in ("Gt", "Ne", "Lt", "Eq"):
+                    c = tt
+                if q[0] == "bin" and q[1] == "Shr" and c is not None:
+                    # (P & M) > 0 with M = 2^S - 1 and Q = P >> S
+                    lhs, rhs = (_uncast(c[2]), c[3]) if const_val(c[3]) == 0 else (_uncast(c[3]), c[2])
+                    if const_val(rhs) == 0 and lhs[0] == "bin" and lhs[1] == "BitAnd":
+                        P, S = strip(q[2]), const_val(q[3])
+                        m_ok = [x for x in (lhs[2], lhs[3]) if const_val(x) is not None]
+                        p_ok = [x for x in (lhs[2], lhs[3]) if strip(x) == P]
+                        if S is not None and m_ok and p_ok and const_val(m_ok[0]) == (1 << S) - 1:
+                            ok = True
+                elif q[0] == "bin" and q[1] == "Div" and c is not None:
+                    lhs, rhs = (_uncast(c[2]), c[3]) if const_val(c[3]) == 0 else (_uncast(c[3]), c[2])
+                    if const_val(rhs) == 0 and lhs[0] == "bin" and lhs[1] == "Rem" and strip(lhs[2]) == strip(q[2]) and strip(lhs[3]) == strip(q[3]):
+                        ok = True
+                elif q[0] == "field" and q[2] == "0" and is_call(q[1], "U256Muldiv::div"):
+                    # !div(N, D, _).1.is_zero()
+                    if is_call(tt, "is_zero"):
+                        r = strip(tt[2][0])
+                        if r[0] == "field" and r[2] == "1" and is_call(r[1], "U256Muldiv::div") and strip(r[1])[2][:2] == strip(q[1])[2][:2]:
+                            ok = True
+        if not ok:
+            problems.append("block %d increments %s but no guard tests the exact remainder of that operation" % (bi, sh(q, 80)))
+    run.check(rule, inst, not problems, "; ".join(problems), loc=fn.loc(), detail="%d increment(s) guarded by the exact remainder of the same division / shift" % len(incs))
+
+
+def R5_exact_remainders(run):
+    run.title("R5", "Q64_RESOLUTION = 64, Q64_MASK = 2^64 - 1, TO_Q64 = 2^64; in every rounding primitive the test guarding the `+ 1` is the exact remainder of the very operation that "
+                    "produced the incremented value: (p & (2^s - 1)) > 0 for p >> s, p % d > 0 for p / d, !div(n, d).1.is_zero() for div(n, d).0")
+    facts = run.facts
+    cv = facts.const_value
+    run.check("R5", "Q64_RESOLUTION", cv(BM + "Q64_RESOLUTION") == 64, "Q64_RESOLUTION = %s" % cv(BM + "Q64_RESOLUTION"), detail="64")
+    run.check("R5", "Q64_MASK", cv(BM + "Q64_MASK") == (1 << 64) - 1, "Q64_MASK = %s, expected 2^64 - 1 (a narrower mask drops remainders and rounds inputs down)" % cv(BM + "Q64_MASK"), detail="2^64 - 1")
+    run.check("R5", "TO_Q64", cv(BM + "TO_Q64") == 1 << 64, "TO_Q64 = %s" % cv(BM + "TO_Q64"), detail="2^64")
+    for p in INCR_PRIMS:
+        fn = facts.need_fn(p)
+        check_remainder_exact(run, "R5", fn)
+
+
+def R6_reach_target_decision(run):
+    run.title("R6", "compute_swap reaches its target iff initial_fixed_delta.lte(budget), where lte is Valid(v) => v <= budget and ExceedsMax => false; exceeds_max() is true exactly for "
+                    "ExceedsMax; the re-computed fixed delta is used iff the step stopped short or the first estimate overflowed")
+    from rules.common import enum_arms, arm_prov
+    facts = run.facts
+    T = TM + "AmountDeltaU64::"
+    lte = facts.need_fn(T + "lte")
+    run.touch(lte)
+    arms = enum_arms(lte, facts, lambda t: is_param(t, "self"))
+    ok = arms is not None
+    got = {}
+    if ok:
+        sw, amap = arms
+        for v, tgt in amap.items():
+            pv = arm_prov(lte, sw, tgt)
+            vals = []
+            for bi, bb in enumerate(lte.blocks):
+                if bb["t"]["k"] == "ret" and pv.flow.state_in[bi] is not None:
+                    vals += [strip(x) for x in leaves(pv.local(0, bi, len(bb["s"])))]
+            got[v] = vals
+        va = got.get("Valid", [])
+        ok = len(va) == 1 and va[0][0] == "bin" and ((va[0][1] == "Le" and is_param(va[0][3], "other")) or (va[0][1] == "Ge" and is_param(va[0][2], "other"))) and \
+            [const_val(x) for x in got.get("ExceedsMax", [])] == [0]
+    run.check("R6", "lte", ok, "AmountDeltaU64::lte is %s; expected Valid(v) => v <= other, ExceedsMax => false (with `<` a budget that exactly pays for the move to the target overshoots it)" %
+              {k: [sh(x, 40) for x in v] for k, v in got.items()}, loc=lte.loc(), detail="Valid(v) => v <= other; ExceedsMax => false")
+    ex = facts.need_fn(T + "exceeds_max")
+    arms = enum_arms(ex, facts, lambda t: is_param(t, "self"))
+    ok = arms is not None
+    if ok:
+        sw, amap = arms
+        got = {}
+        for v, tgt in amap.items():
+            pv = arm_prov(ex, sw, tgt)
+            got[v] = [const_val(x) for bi, bb in enumerate(ex.blocks) if bb["t"]["k"] == "ret" and pv.flow.state_in[bi] is not None for x in leaves(pv.local(0, bi, len(bb["s"])))]
+        ok = got == {"Valid": [0], "ExceedsMax": [1]}
+    run.check("R6", "exceeds_max", ok, "AmountDeltaU64::exceeds_max is not false for Valid and true for ExceedsMax", loc=ex.loc(), detail="Valid => false; ExceedsMax => true")
+    fn = facts.need_fn(SM + "compute_swap")
+    dec = [at for at in A.atoms(fn) if is_call(at.term, "AmountDeltaU64::lte")]
+    ok = len(dec) == 1
+    if ok:
+        at = dec[0]
+        c = strip(at.term)
+        src = strip(c[2][0])
+        ok = mentions(src, lambda s: s[0] == "call" and s[1].endswith("try_get_amount_fixed_delta"))
+        budget = [strip(x) for x in leaves(c[2][1])]
+        ok = ok and all(is_param(x, "amount_remaining") or mentions(x, lambda s: s[0] == "call" and s[1].endswith("checked_mul_div")) for x in budget)
+        pvt = prov_assuming(fn, [(at, True)])
+        pvf = prov_assuming(fn, [(at, False)])
+
+        def next_prices(pv):
+            out = set()
+            for bi, bb in enumerate(fn.blocks):
+                if bb["t"]["k"] == "ret" and pv.flow.state_in[bi] is not None:
+                    for l in leaves(pv.local(0, bi, len(bb["s"]))):
+                        l = strip(l)
+                        if l[0] == "agg" and l[2] == "Ok":
+                            q = strip(dict(l[3])["0"])
+                            if q[0] == "agg":
+                                for x in leaves(dict(q[3])["next_price"]):
+                                    x = strip(x)
+                                    out.add("target" if is_param(x, "sqrt_price_target") else ("computed" if mentions(x, lambda s: s[0] == "call" and s[1].endswith("get_next_sqrt_price")) else sh(x, 30)))
+            return out
+        nt, nf = next_prices(pvt), next_prices(pvf)
+        ok = ok and nt == {"target"} and nf == {"computed"}
+    run.check("R6", "reach-target", ok, "compute_swap does not take the target price exactly when initial_fixed_delta.lte(budget) and get_next_sqrt_price(..budget..) otherwise", loc=fn.loc(),
+              detail="lte(budget) => next = target; else next = get_next_sqrt_price(current, liquidity, budget, ..)")
+    re_at = [at for at in A.atoms(fn) if is_call(at.term, "AmountDeltaU64::exceeds_max") or any(is_call(x, "AmountDeltaU64::exceeds_max") for x in leaves(at.term))]
+    run.check("R6", "recompute-on-overflow", len(re_at) >= 1, "compute_swap no longer re-computes the fixed delta when the first estimate exceeded u64", loc=fn.loc(), detail="!is_max || exceeds_max() => recompute")
+
+
+RULES = [R1_step_polarity, R2_rounding_primitives, R3_next_price, R4_fee_and_amounts, R5_exact_remainders, R6_reach_target_decision]
